@@ -15,6 +15,8 @@
   only abnormal outcome, running out of recursion fuel, is unreachable.
 -/
 import LDEval.Proofs.Total
+import LDEval.Proofs.AuditGuard
+import LDEval.Proofs.AuditClean
 
 namespace LD.C01
 
@@ -93,4 +95,332 @@ example :
     (evaluate aliasEnv feature).result.detail.index = none ∧
     (evaluate aliasEnv feature).flagLookups = ["gate", "gate"] := by decide
 
+/-! ## Strengthened statements (theorem audit) -/
+
+/-! ### #1 — guardedness: no defaulting accessor ever returns its default
+
+The model cannot express a Go `panic` (`Outcome` has no such constructor, and it may not be changed
+here).  What can be said instead — and is what "does not panic" amounts to for index expressions —
+is that every place where the model uses a total accessor with a default on behalf of a Go index /
+slice / last-element expression is GUARDED: on every path that reaches it the index is in range, so
+the accessor returns the genuine element.  `Proofs/AuditGuard.lean` proves this site by site (with the
+Go line of each bounds check); `no_default_reached` collects the sites.  A Go change that weakens one
+of the checks (e.g. `index > len` for `index >= len` in `getVariation`) now has a model counterpart —
+the corresponding field of `NoDefaultReached` becomes false for the mirrored model. -/
+
+/-- **No default is reached.**  For every environment and flag: `getVariation` returns the genuine
+`Variations[index]` or fails its bounds check; the value next to a returned index is that element; the
+last bucket is taken from a non-empty list only; the rule looked up by `isExperiment` exists, for the
+final result and for every prerequisite event; the 15-character hash prefix is in range and parses;
+the operator loop hands only in-range indices to the clause-value accessors; the big-segment
+reference is built only behind the generation check; and the buffer copy stays inside the grown
+buffer. -/
+theorem no_default_reached (env : Env) (f : Flag) : NoDefaultReached env f :=
+  noDefaultReached env f
+
+/-- `getVariation` in the form "a result with an index was not produced by a default": the index is
+the one asked for, it is within bounds, the value is `Variations[index]` and the reason is untouched
+(evaluator.go:248, 253). -/
+theorem getVariation_index_in_range {env : Env} {f : Flag} {i : Int} {r : Reason} {st : St} {j : Int}
+    (h : (getVariation env f i r st).1.index = some j) :
+    j = i ∧ 0 ≤ i ∧ ∃ hlt : i.toNat < f.variations.length,
+      (getVariation env f i r st).1.value = f.variations[i.toNat] ∧
+      (getVariation env f i r st).1.reason = r :=
+  getVariation_index_some h
+
+/-- The fall-back to the last bucket (evaluator.go:363) reads `Variations[len-1]` of a NON-EMPTY list:
+when there is no fixed variation, the list is non-empty, bucketing succeeds and the threshold scan
+finds nothing, the result is built from exactly that element. -/
+theorem last_bucket_in_range {env : Env} {vr : VariationOrRollout} {key salt : String}
+    (hv : vr.variation = none) (hne : vr.rollout.variations ≠ []) {bucket : Rat} {fail : BucketFail}
+    (hb : computeBucket env.opts.secondaryKey env.ctx vr.rollout.isExperiment vr.rollout.seed
+      vr.rollout.contextKind key vr.rollout.bucketBy salt = .ok (bucket, fail))
+    (hscan : rolloutScan bucket vr.rollout.isExperiment (fail == .contextLacksKind)
+      vr.rollout.variations 0 = none) :
+    ∃ h : vr.rollout.variations.length - 1 < vr.rollout.variations.length,
+      variationOrRollout env vr key salt =
+        .ok ((vr.rollout.variations[vr.rollout.variations.length - 1]).variation,
+          vr.rollout.isExperiment &&
+            !(vr.rollout.variations[vr.rollout.variations.length - 1]).untracked &&
+            !(fail == .contextLacksKind)) :=
+  variationOrRollout_last_guarded hv hne hb hscan
+
+-- Non-vacuity of `getVariation_index_in_range`: an in-range call on a two-variation flag.
+example : (getVariation aliasEnv { key := "f", variations := [.bool true, .str "x"] } 1
+    Reason.fallthrough {}).1.index = some 1 := by decide
+
+-- Non-vacuity of `last_bucket_in_range`: weights that do not add up to 100000 and a context without
+-- the rollout's kind (bucket 0 is not below the zero weights), so the scan finds nothing and the last
+-- bucket is used.
+example :
+    let vr : VariationOrRollout :=
+      { rollout := { contextKind := "org", variations := [⟨0, 0, false⟩, ⟨1, 0, false⟩] } }
+    vr.variation = none ∧ vr.rollout.variations ≠ [] ∧
+    computeBucket aliasEnv.opts.secondaryKey aliasEnv.ctx vr.rollout.isExperiment vr.rollout.seed
+      vr.rollout.contextKind "k" vr.rollout.bucketBy "s" = .ok (0, .contextLacksKind) := by
+  refine ⟨rfl, by simp, by decide⟩
+
+/-! ### #2 — the fields of the reason are coherent -/
+
+/-- **Reason coherence.**  The reason `evaluate` returns has fields that fit its kind: RULE_MATCH
+carries the non-negative index of an existing rule of the flag and that rule's id;
+PREREQUISITE_FAILED carries the key of one of the flag's listed prerequisites; `errorKind` is present
+exactly for ERROR; every kind other than RULE_MATCH has rule index −1 and an empty rule id; every kind
+other than PREREQUISITE_FAILED has an empty prerequisite key; `inExperiment` is set only on
+FALLTHROUGH / RULE_MATCH.  For the Go code: `NewEvalReasonRuleMatch(ruleIndex, rule.ID)` is called
+with the loop's own index and rule, and no other constructor fills those fields. -/
+theorem reason_coherent (env : Env) (f : Flag) :
+    let r := (evaluate env f).result.detail.reason
+    (r.kind = .ruleMatch →
+      0 ≤ r.ruleIndex ∧ ∃ rule, f.rules[r.ruleIndex.toNat]? = some rule ∧ r.ruleId = rule.id) ∧
+    (r.kind = .prereqFailed → ∃ p ∈ f.prerequisites, p.key = r.prereqKey) ∧
+    (r.kind = .error ↔ r.errorKind.isSome = true) ∧
+    (r.kind ≠ .ruleMatch → r.ruleIndex = -1 ∧ r.ruleId = "") ∧
+    (r.kind ≠ .prereqFailed → r.prereqKey = "") ∧
+    (r.inExperiment = true → r.kind = .fallthrough ∨ r.kind = .ruleMatch) := by
+  have h := evaluate_reason_coherent env f
+  exact ⟨h.ruleMatch, h.prereqFailed, h.error, h.noRule, h.noPrereq, h.inExp⟩
+
+/-- The same for the result carried by every recorded prerequisite event, relative to the
+prerequisite flag `pf` that the store returned (the event's `prereqKey` is `pf`'s own key), together
+with the fact that the event's `IsExperiment` was computed from that reason and that flag. -/
+theorem event_reason_coherent (env : Env) (f : Flag) :
+    ∀ e ∈ (evaluate env f).events, ∃ pf ∈ env.store.flags.map (·.2),
+      e.prereqKey = pf.key ∧ ReasonCoherent pf e.result.detail.reason ∧
+      e.result.isExperiment = isExperimentResult pf e.result.detail.reason :=
+  evaluate_events_reason_coherent env f
+
+/-- The statement holds at every nesting depth: any completed evaluation of the specification. -/
+theorem reason_coherent_nested {sf n : Nat} {env : Env} {f : Flag} {chain : List String} {d : Detail}
+    {ok : Bool} (h : Spec.evalFlag sf n env f chain = some (d, ok)) : ReasonCoherent f d.reason :=
+  coh_spec_evalFlag h
+
+/-- A flag whose SECOND rule matches (the first tests a different key). -/
+def twoRules : Flag :=
+  { key := "two", on := true, variations := [.bool false, .bool true],
+    fallthrough := { variation := some 0 },
+    rules := [
+      { id := "first", vr := { variation := some 0 },
+        clauses := [{ attr := { raw := "key", single := "key" }, op := "in", values := [.str "nobody"] }] },
+      { id := "second", vr := { variation := some 1 }, trackEvents := true,
+        clauses := [{ attr := { raw := "key", single := "key" }, op := "in", values := [.str "u"] }] }] }
+
+-- Non-vacuity of the RULE_MATCH and PREREQUISITE_FAILED parts: both kinds occur, with exactly the
+-- index / id / key the theorem describes.
+example :
+    (evaluate aliasEnv twoRules).result.detail.reason.kind = .ruleMatch ∧
+    (evaluate aliasEnv twoRules).result.detail.reason.ruleIndex = 1 ∧
+    (evaluate aliasEnv twoRules).result.detail.reason.ruleId = "second" ∧
+    (evaluate aliasEnv twoRules).result.isExperiment = true := by decide
+
+example :
+    (evaluate { aliasEnv with store := {} } feature).result.detail.reason.kind = .prereqFailed ∧
+    (evaluate { aliasEnv with store := {} } feature).result.detail.reason.prereqKey = "gate" ∧
+    (evaluate { aliasEnv with store := {} } feature).result.detail.reason.ruleIndex = -1 := by decide
+
+/-! ### #3 — clean data never yields an error -/
+
+/-- **Clean data ⇒ no error.**  If the context is valid, the flag is clean (`CleanFlag`: off
+variation, target variations, rule and fallthrough variations / rollout buckets all in range, no empty
+rollout, every attribute and bucket-by reference well-formed), every stored flag and segment is clean,
+and the prerequisite and segment reference graphs are acyclic (a rank on own keys strictly decreases
+along every reference the store resolves), then `evaluate` returns no ERROR reason and no error kind.
+This is the converse direction missing next to `error_kinds`: MALFORMED_FLAG is reported ONLY for bad
+flag / segment data.  (Missing prerequisites or segments are not errors in the Go code and need not be
+excluded.) -/
+theorem clean_no_error (env : Env) (f : Flag) (frank srank : String → Nat)
+    (hctx : env.ctx ≠ .invalid) (hst : CleanStore env.store frank srank) (hf : CleanFlag f)
+    (hdesc : PrereqsDescend env.store frank f) :
+    (evaluate env f).result.detail.reason.kind ≠ .error ∧
+    (evaluate env f).result.detail.reason.errorKind = none :=
+  evaluate_clean_no_error env f frank srank hctx hst hf hdesc
+
+/-- … and the result then is an in-range variation with exactly its value, or (only when the flag has
+no off variation) the null value with reason OFF / PREREQUISITE_FAILED. -/
+theorem clean_result (env : Env) (f : Flag) (frank srank : String → Nat)
+    (hctx : env.ctx ≠ .invalid) (hst : CleanStore env.store frank srank) (hf : CleanFlag f)
+    (hdesc : PrereqsDescend env.store frank f) :
+    (∃ j : Int, (evaluate env f).result.detail.index = some j ∧ 0 ≤ j ∧
+      ∃ hlt : j.toNat < f.variations.length,
+        (evaluate env f).result.detail.value = f.variations[j.toNat]) ∨
+    ((evaluate env f).result.detail.index = none ∧ (evaluate env f).result.detail.value = .null ∧
+      f.offVariation = none ∧
+      ((evaluate env f).result.detail.reason.kind = .off ∨
+        (evaluate env f).result.detail.reason.kind = .prereqFailed)) := by
+  have hne := (clean_no_error env f frank srank hctx hst hf hdesc).1
+  rcases wellformed env f with ⟨i, hi, _, _, _, _⟩ | ⟨_, _, hk, _⟩ | ⟨hn, hv, hoff, _, hk⟩
+  · obtain ⟨h0, hlt, hval⟩ := evaluate_value_guarded env f i hi
+    exact Or.inl ⟨i, hi, h0, hlt, hval⟩
+  · exact absurd hk hne
+  · exact Or.inr ⟨hn, hv, hoff, hk⟩
+
+/-- No prerequisite event of an evaluation over a clean store carries an ERROR result. -/
+theorem clean_events_no_error (env : Env) (f : Flag) (frank srank : String → Nat)
+    (hst : CleanStore env.store frank srank) :
+    ∀ e ∈ (evaluate env f).events, e.result.detail.reason.kind ≠ .error :=
+  evaluate_clean_events_no_error env f frank srank hst
+
+/-- Under the same hypotheses nested evaluations are never aborted and never erroneous, at any depth
+and for any fuel (the statement on the specification that the two theorems above come from). -/
+theorem clean_nested {env : Env} {frank srank : String → Nat}
+    (hst : CleanStore env.store frank srank) (sf n : Nat) (f : Flag) (chain : List String)
+    (hf : CleanFlag f) (hdesc : PrereqsDescend env.store frank f)
+    (hchain : ∀ k ∈ chain, frank f.key < frank k) (d : Detail) (ok : Bool)
+    (h : Spec.evalFlag sf n env f chain = some (d, ok)) : ok = true ∧ d.reason.kind ≠ .error :=
+  spec_evalFlag_clean hst sf n f chain hf hdesc hchain d ok h
+
+-- Non-vacuity of `clean_no_error`: a store with a prerequisite flag (one rule) and two segments, one
+-- referring to the other, and a root flag with a prerequisite, a segment-match rule, a percentage
+-- rollout as fallthrough and an off variation.
+
+def keyRef : Ref := { raw := "key", single := "key" }
+
+def cleanGate : Flag :=
+  { key := "gate", on := true, variations := [.bool true, .bool false],
+    fallthrough := { variation := some 1 },
+    rules := [{ id := "g1", vr := { variation := some 0 },
+                clauses := [{ attr := keyRef, op := "in", values := [.str "u"] }] }] }
+
+def innerSeg : Segment :=
+  { key := "inner",
+    rules := [{ clauses := [{ attr := keyRef, op := "in", values := [.str "u"] }],
+                weight := some 50000 }] }
+
+def outerSeg : Segment :=
+  { key := "outer", rules := [{ clauses := [{ op := "segmentMatch", values := [.str "inner"] }] }] }
+
+def cleanRoot : Flag :=
+  { key := "root", on := true, variations := [.str "a", .str "b"], offVariation := some 1,
+    prerequisites := [⟨"gate", 0⟩],
+    targets := [{ values := ["x"], variation := 0 }],
+    rules := [{ id := "r1", vr := { variation := some 1 },
+                clauses := [{ op := "segmentMatch", values := [.str "outer", .str "missing"] }] }],
+    fallthrough := { rollout := { variations := [⟨0, 60000, false⟩, ⟨1, 40000, false⟩] } } }
+
+def cleanEnv : Env :=
+  { opts := {}, bs := none, ctx := .single { kind := "user", key := "u" }, rx := fun _ _ => none,
+    store := { flags := [("gate", cleanGate)],
+               segments := [("inner", innerSeg), ("outer", outerSeg)] } }
+
+def frankEx (k : String) : Nat := if k = "root" then 1 else 0
+def srankEx (k : String) : Nat := if k = "outer" then 1 else 0
+
+theorem cleanClause_key (vs : List J) : CleanClause { attr := keyRef, op := "in", values := vs } :=
+  Or.inr ⟨(by decide : keyRef.isDefined = true), (by decide : keyRef.errOf = none)⟩
+
+theorem cleanGate_clean : CleanFlag cleanGate where
+  off := by intro v h; cases h
+  targets := by intro t h; cases h
+  contextTargets := by intro t h; cases h
+  rules := by
+    intro r hr
+    simp only [cleanGate, List.mem_singleton] at hr
+    subst hr
+    refine ⟨by simp [CleanVR, InRange, cleanGate], ?_⟩
+    intro c hc
+    simp only [List.mem_singleton] at hc
+    subst hc
+    exact cleanClause_key _
+  fallthrough := by simp [CleanVR, InRange, cleanGate]
+
+theorem cleanRoot_clean : CleanFlag cleanRoot where
+  off := by intro v h; simp only [cleanRoot, Option.some.injEq] at h; subst h; simp [InRange, cleanRoot]
+  targets := by
+    intro t h
+    simp only [cleanRoot, List.mem_singleton] at h
+    subst h; simp [InRange, cleanRoot]
+  contextTargets := by intro t h; cases h
+  rules := by
+    intro r hr
+    simp only [cleanRoot, List.mem_singleton] at hr
+    subst hr
+    refine ⟨by simp [CleanVR, InRange, cleanRoot], ?_⟩
+    intro c hc
+    simp only [List.mem_singleton] at hc
+    subst hc
+    exact Or.inl (by decide)
+  fallthrough := by
+    simp only [CleanVR, cleanRoot]
+    refine ⟨by simp, ?_, Or.inr (Or.inl (by decide))⟩
+    intro wv hwv
+    simp only [List.mem_cons, List.not_mem_nil, or_false] at hwv
+    rcases hwv with rfl | rfl <;> simp [InRange]
+
+theorem cleanEnv_store : CleanStore cleanEnv.store frankEx srankEx where
+  flags := by
+    intro pf hpf
+    simp only [cleanEnv, List.map_cons, List.map_nil, List.mem_singleton] at hpf
+    subst hpf
+    exact ⟨cleanGate_clean, by intro p hp; cases hp⟩
+  segments := by
+    intro sg hsg
+    simp only [cleanEnv, List.map_cons, List.map_nil, List.mem_cons, List.not_mem_nil,
+      or_false] at hsg
+    rcases hsg with rfl | rfl
+    · refine ⟨⟨?_⟩, ?_⟩
+      · intro r hr
+        simp only [innerSeg, List.mem_singleton] at hr
+        subst hr
+        refine ⟨?_, fun _ => Or.inr (Or.inl (by decide))⟩
+        intro c hc
+        simp only [List.mem_singleton] at hc
+        subst hc
+        exact cleanClause_key _
+      · intro r hr c hc hop
+        simp only [innerSeg, List.mem_singleton] at hr
+        subst hr
+        simp only [List.mem_singleton] at hc
+        subst hc
+        exact absurd hop (by decide)
+    · refine ⟨⟨?_⟩, ?_⟩
+      · intro r hr
+        simp only [outerSeg, List.mem_singleton] at hr
+        subst hr
+        refine ⟨?_, fun h => by cases h⟩
+        intro c hc
+        simp only [List.mem_singleton] at hc
+        subst hc
+        exact Or.inl (by decide)
+      · intro r hr c hc _ k hk sg' hfind
+        simp only [outerSeg, List.mem_singleton] at hr
+        subst hr
+        simp only [List.mem_singleton] at hc
+        subst hc
+        simp only [List.mem_singleton, J.str.injEq] at hk
+        subst hk
+        have : cleanEnv.store.findSegment "inner" = some innerSeg := rfl
+        rw [this] at hfind
+        cases hfind
+        decide
+
+theorem cleanRoot_descends : PrereqsDescend cleanEnv.store frankEx cleanRoot := by
+  intro p hp pf hfind
+  simp only [cleanRoot, List.mem_singleton] at hp
+  subst hp
+  have : cleanEnv.store.findFlag "gate" = some cleanGate := rfl
+  rw [this] at hfind
+  cases hfind
+  decide
+
+/-- The hypotheses of `clean_no_error` are satisfiable by a non-trivial world, and the conclusion
+is then available without running the evaluator (the fallthrough is a hashed rollout). -/
+example : (evaluate cleanEnv cleanRoot).result.detail.reason.kind ≠ .error :=
+  (clean_no_error cleanEnv cleanRoot frankEx srankEx (by simp [cleanEnv]) cleanEnv_store
+    cleanRoot_clean cleanRoot_descends).1
+
+-- Each hypothesis matters: an out-of-range fallthrough, and a prerequisite cycle, do give ERROR.
+example :
+    (evaluate cleanEnv { cleanGate with fallthrough := { variation := some 7 }, rules := [] }
+      ).result.detail.reason = Reason.error .malformedFlag := by decide
+
+example : (evaluate aliasEnv feature).result.detail.reason.kind = .error := by decide
+
 end LD.C01
+
+#print axioms LD.C01.no_default_reached
+#print axioms LD.C01.reason_coherent
+#print axioms LD.C01.event_reason_coherent
+#print axioms LD.C01.clean_no_error
+#print axioms LD.C01.clean_result
+#print axioms LD.C01.clean_events_no_error
+#print axioms LD.C01.last_bucket_in_range
